@@ -399,6 +399,10 @@ type faulty struct {
 	persist    bool
 	calls      int64
 	failed     int64
+	// meet > 1: a failing Distance call waits (bounded) until that many failing calls are in flight, so
+	// that several workers report their error at the same moment
+	meet    int64
+	arrived int64
 }
 
 func (f *faulty) hit() bool {
@@ -412,6 +416,12 @@ func (f *faulty) hit() bool {
 
 func (f *faulty) Distance(s1, s2 []uint8, w []float64) (float64, error) {
 	if f.inDistance && f.hit() {
+		if f.meet > 1 {
+			atomic.AddInt64(&f.arrived, 1)
+			for i := 0; i < 500 && atomic.LoadInt64(&f.arrived) < f.meet; i++ {
+				time.Sleep(20 * time.Microsecond)
+			}
+		}
 		return 0, errInjected
 	}
 	return f.DistModel.Distance(s1, s2, w)
@@ -429,9 +439,11 @@ type faultCase struct {
 	Opt        refdist.Options `json:"opt"`
 	InDistance bool            `json:"in_distance"` // the failing method: Distance or Sequence
 	Persist    bool            `json:"persist"`     // every call from the k-th on fails
+	Together   bool            `json:"together"`    // with Persist and Distance: two failing calls wait for each other, the workers report at the same time
 	// K and Threads are filled while the case runs (the side file then names the hanging call)
-	K       int `json:"k"`
-	Threads int `json:"threads"`
+	K         int `json:"k"`
+	Threads   int `json:"threads"`
+	Remaining int `json:"remaining"` // calls from the k-th to the last
 }
 
 func genFault(t *rapid.T) faultCase {
@@ -440,6 +452,7 @@ func genFault(t *rapid.T) faultCase {
 	c.Opt = refdist.GenOptions(t, len(c.Rows), len(c.Rows[0]), true, true)
 	c.InDistance = rapid.IntRange(0, 3).Draw(t, "in-distance") != 0
 	c.Persist = rapid.Bool().Draw(t, "persist")
+	c.Together = rapid.Bool().Draw(t, "together")
 	return c
 }
 
@@ -452,6 +465,9 @@ func runFault(test string, c faultCase) (m [][]float64, err error, failed int64)
 		panic("harness: " + e.Error())
 	}
 	f := &faulty{DistModel: real, inDistance: c.InDistance, k: int64(c.K), persist: c.Persist}
+	if c.Together && c.Persist && c.InDistance && c.Threads >= 2 && c.Remaining >= 2 {
+		f.meet = 2
+	}
 	al := gen.MustBuild(distrun.Ali(c.Rows))
 	pbt.Guarded(test, c, pbt.WatchdogLimit(20*time.Second), func() {
 		m, err = distrun.MatrixWith(al, c.Opt, f, c.Threads)
@@ -502,7 +518,7 @@ func checkFaultIn(test string) func(c faultCase) (pbt.Outcome, error) {
 		for _, k := range ks {
 			for _, th := range ths {
 				cc := c
-				cc.K, cc.Threads = k, th
+				cc.K, cc.Threads, cc.Remaining = k, th, calls-k+1
 				m, err, failed := runFault(test, cc)
 				if k <= calls {
 					if err == nil {
@@ -532,6 +548,9 @@ func checkFaultIn(test string) func(c faultCase) (pbt.Outcome, error) {
 		}
 		if c.Persist {
 			o.Class("persistent-failure")
+			if c.Together && c.InDistance {
+				o.Class("simultaneous-failures")
+			}
 		} else {
 			o.Class("single-failure")
 		}
@@ -630,8 +649,8 @@ func TestCLI(t *testing.T) {
 		if perr != nil {
 			return o, fmt.Errorf("unreadable matrix: %v\n%s", perr, first)
 		}
-		readings := refdist.Readings(c.Rows, c.Opt, []bool{false, true})
-		v, _, err := refdist.JudgeAny(got, c.Rows, c.Opt, readings, refdist.JudgeOpt{Tol: refdist.CLITol, ExemptBelowP: true})
+		readings := refdist.Readings(c.Rows, c.Opt)
+		v, _, err := refdist.JudgeAny(got, c.Rows, c.Opt, readings, refdist.JudgeOpt{Tol: refdist.CLITol})
 		if err != nil {
 			return o, fmt.Errorf("goalign %v\n%v", distrun.Args(c.Opt, in, 1), err)
 		}
